@@ -28,7 +28,7 @@ IO_NAMES = ("recv_from", "recv", "accept", "pop", "try_recv", "read", "read_exac
             # progress that depends on another thread or on the peer: a full queue, a contended lock, a busy socket
             "push", "try_send", "send", "send_to", "try_lock", "connect", "compare_exchange", "compare_exchange_weak", "recv_timeout", "is_full", "is_empty_queue")
 RANDOM_NAMES = ("next_u32", "next_u64", "gen", "fill_bytes", "sample")
-FINITE_ITER = ("iter", "iter_mut", "into_iter", "enumerate", "zip", "take", "chunks", "map", "values", "keys", "chain", "once", "rev", "skip", "drain", "windows")
+FINITE_ITER = ("iter", "iter_mut", "into_iter", "enumerate", "zip", "take", "chunks", "chunks_exact", "map", "copied", "cloned", "filter", "filter_map", "find_map", "take_while", "skip_while", "step_by", "flat_map", "flatten", "split_at", "zip", "values", "keys", "chain", "once", "rev", "skip", "drain", "windows")
 
 
 def flag_terms(W, fn, ev, bound_params):
